@@ -580,10 +580,12 @@ func (d *driver) sendMsg(m *Msg) {
 	case *wamp.Interrupt:
 		req = int64(x.Request)
 	}
+	// which request id the script resolved to (the model is given the same);
+	// logged BEFORE the send so that it precedes, in the log, everything the
+	// client does because of the message
+	d.log(Obs{E: "rmsg", Typ: m.T, Req: req, N: m.seq})
 	select {
 	case d.rp.Send() <- msg:
-		// which request id the script resolved to (the model is given the same)
-		d.log(Obs{E: "rmsg", Typ: m.T, Req: req, N: m.seq})
 	default:
 		d.log(Obs{E: "note", Txt: "router-queue-full"})
 	}
